@@ -801,6 +801,17 @@ class E9Determinism(Engine):
                 scripts.insert(pos, twin)
                 expect_reject.append(pos)
                 break
+        # renamed twins: the same script with one device variable renamed throughout. Anything remembered between
+        # transpilations under a key that leaves the variable's name out (pin, arguments, text of a rendered block)
+        # would hand the twin the other script's identifiers.
+        decl = re.compile(r"^(\w+) = (?:Buzzer|LCD|Led|RGBLed|Servo|DCMotor|Button|Potentiometer|Ultrasonic)\(", re.M)
+        cands = [i for i, t in enumerate(scripts) if i not in expect_reject and decl.search(t)]
+        rng.shuffle(cands)
+        cands.sort(key=lambda i: 0 if re.search(r"\.(melody|sweep|animate|glyph|measure_distance)\(", scripts[i]) else 1)
+        for i in cands[: rng.choice([0, 1, 1, 2])]:
+            names = sorted(set(decl.findall(scripts[i])))
+            nm = rng.choice(names)
+            scripts.append(re.sub(rf"\b{re.escape(nm)}\b", nm + rng.choice(["_b", "2", "x"]), scripts[i]))
         n_seeds = 4 if tier == "quick" else 28
         hash_seeds = [0, 1, 2, 3] + [rng.randint(4, 4294967295) for _ in range(n_seeds)]
         n = len(scripts)
